@@ -12,6 +12,7 @@ CONSTANTS
   EUSuffixed = {}
   GenClasses = {"scalar", "array", "bitfield", "nested", "anon", "alignas", "flex"}
   GenPacked = TRUE
+  McSel = "full"
   CheckSim = FALSE
 INVARIANTS Inv_RefineStep Inv_RefineDone Inv_DeclSane Inv_ImplSane
 CHECK_DEADLOCK FALSE
